@@ -161,8 +161,12 @@ func r10a(c *core.Ctx) {
 				sel = true
 			}
 		case *ssa.Return:
-			if hr != top && len(x.Results) == 1 && core.Expr(x.Results[0]) == rule {
-				sel = true
+			if hr != top {
+				for _, rv := range x.Results {
+					if core.Expr(rv) == rule {
+						sel = true
+					}
+				}
 			}
 		}
 	})
